@@ -334,3 +334,49 @@ func must2(_ reconcile.Result, err error) {
 		panic(err)
 	}
 }
+
+// Informers is a set of the real state informer reconcilers bound to one cluster cache.
+type Informers struct {
+	w       *World
+	Cluster *state.Cluster
+	node    *informer.NodeController
+	pod     *informer.PodController
+	nc      *informer.NodeClaimController
+	np      *informer.NodePoolController
+	ds      *informer.DaemonSetController
+}
+
+func (w *World) NewInformers(c *state.Cluster) *Informers {
+	cc := cost.NewClusterCost(w.Ctx, w.CP, w.Client)
+	return &Informers{w: w, Cluster: c, node: informer.NewNodeController(w.Client, c), pod: informer.NewPodController(w.Client, c),
+		nc: informer.NewNodeClaimController(w.Client, w.CP, c, cc), np: informer.NewNodePoolController(w.Client, w.CP, c, cc), ds: informer.NewDaemonSetController(w.Client, c)}
+}
+
+// Deliver runs the real informer reconcile for one key (level-triggered: it reads the latest version, or learns the
+// object is gone). Returns the reconcile error, if any.
+func (i *Informers) Deliver(kind, ns, name string) error {
+	_, err := i.DeliverR(kind, ns, name)
+	return err
+}
+
+// DeliverR also reports whether the reconcile asked for an immediate requeue (the key has not been fully observed yet).
+func (i *Informers) DeliverR(kind, ns, name string) (bool, error) {
+	i.w.Client.Quiet++
+	defer func() { i.w.Client.Quiet-- }()
+	r := reconcile.Request{NamespacedName: types.NamespacedName{Namespace: ns, Name: name}}
+	var err error
+	var res reconcile.Result
+	switch kind {
+	case "Node":
+		res, err = i.node.Reconcile(i.w.Ctx, r)
+	case "Pod":
+		res, err = i.pod.Reconcile(i.w.Ctx, r)
+	case "NodeClaim":
+		res, err = i.nc.Reconcile(i.w.Ctx, r)
+	case "NodePool":
+		res, err = i.np.Reconcile(i.w.Ctx, r)
+	case "DaemonSet":
+		res, err = i.ds.Reconcile(i.w.Ctx, r)
+	}
+	return res.Requeue, err //nolint:staticcheck
+}
